@@ -16,6 +16,8 @@ Driver for the C17 correspondence.  One request per line:
   `sites`                                  → the generated emission table (`Gen.emitSites`) in a canonical spelling
   `cfg <c|cpp>`                            → the generated built-in configuration (`options~…#preset=…&…`)
   `flow <c|cpp> <request>`                 → `ok <effective set as key~value;…>` | `rej:<error>`   (Model/OptionFlow.lean)
+  `dflow <c|cpp> <files> <overrides>`      sets joined by `&` (`.` = none): configuration files in order, override calls in order,
+                                           through Builder.deliver / create → `ok <effective set>` | `rej:<error>`
   `emit <c|cpp> <support|type> <0|1> <set>` → what the emission table says the header carries: `ok:<name=number,…|->` |
                                            `err:gen` | `uninterpretable`
   `hist <c|cpp> <call>|<call>|…`           one process, calls `T,<omit>,<request>` (generate_types), `N,<id>,<request>`
@@ -193,6 +195,15 @@ def answer (line : String) : String :=
       | .ok o => "ok " ++ showSet o
       | .error e => "rej:" ++ showErr e
     | _, _ => "bad-op"
+  | ["dflow", l, fs, ovs] =>
+    let sets := fun (s : String) => if s = "." then some [] else (splitOnChar s '&').mapM parseSet
+    match parseLang l, sets fs, sets ovs with
+    | some l, some fs, some ovs =>
+      let strip := fun (o : List (String × String × OptVal)) => o.map fun (k, _, v) => (k, v)
+      match (((Builder.fresh (Gen.fileConfig l)).deliver ⟨fs.map strip, ovs.map strip⟩).create l).2 with
+      | .ok o => "ok " ++ showSet o
+      | .error e => "rej:" ++ showErr e
+    | _, _, _ => "bad-op"
   | ["emit", l, side, om, a] =>
     match parseLang l, parseSet a with
     | some l, some a =>
